@@ -742,9 +742,12 @@ def judge_fn(ck, case, obs, mo, d):
             arr = np_prop(p, len(g["ids"]))
             keep = np.ones(len(g["ids"]), bool) if arr["missing"] is None else ~arr["missing"]
             vals = [Fraction(x) for x in arr["values"][keep].ravel().tolist()]
-            if len(g["ids"]) and (Fraction(a["min"]) != min(vals) or Fraction(a["max"]) != max(vals)):
-                ck.fail("C10:axis-range", f"compute_and_add_axis_min_max: axis {a['name']} got {a['min']}..{a['max']}", case,
-                        [a["min"], a["max"]], [float(min(vals)), float(max(vals))])
+            if not len(g["ids"]):
+                continue
+            span = [float(min(vals)), float(max(vals))] if vals else "no non-missing coordinate (numpy raises ValueError)"
+            if not vals or a.get("min") is None or Fraction(a["min"]) != min(vals) or Fraction(a["max"]) != max(vals):
+                ck.fail("C10:axis-range", f"compute_and_add_axis_min_max: axis {a['name']} got {a.get('min')}..{a.get('max')}, "
+                        f"non-missing coordinates: {span}", case, [a.get("min"), a.get("max")], span)
     if mo is None:
         return
     if ok != ("ok" in mo):
@@ -883,8 +886,29 @@ def run(ck: common.Check):
     ]
 
 
+class _Rec:
+    """collects ck.fail calls during a replay"""
+    def __init__(self):
+        self.f, self.histogram = [], {}
+
+    def fail(self, key, what, *a):
+        self.f.append((key, what))
+
+    def case(self, *a, **k):
+        pass
+
+
 def replay(rp):
-    case = rp["case"]
+    case = rp.get("case", rp)   # a replay file, or a bare corpus case
+    if case["entry"] in ("minmax", "axes_from_lists"):
+        obs = run_fn(case)
+        r = _Rec()
+        judge_fn(r, case, obs, None, 1)
+        print(json.dumps({k: obs.get(k) for k in ("axes", "exc", "msg")}, default=str)[:2000])
+        for k, w in r.f:
+            print(f"  [{k}] {w}")
+        print("REPLAY: property FAILS on this input" if r.f else "REPLAY: property holds on this input")
+        return 1 if r.f else 0
     if case["entry"] == "sg":
         warm_sg()
     obs = run_impl(case)
@@ -894,13 +918,7 @@ def replay(rp):
         print("REPLAY: property FAILS on this input" if bad else "REPLAY: write raised (no stored metadata): property holds vacuously")
         return 1 if bad else 0
 
-    class R:
-        def __init__(self):
-            self.f = []
-
-        def fail(self, key, what, *a):
-            self.f.append((key, what))
-    r = R()
+    r = _Rec()
     oracle(r, case, obs)
     print(json.dumps({"stored_metadata": obs["attrs"], "stored_groups": {k: (None if v is None else {n: {f: e[f] for f in ("dtype", "has_data")} for n, e in v.items()}) for k, v in obs["raw"].items()}}, default=str)[:3000])
     for k, w in r.f:
